@@ -1301,6 +1301,11 @@ def c14(tier):
     # larger btree (depth >= 2) and many keys per hash page
     record_and_validate(rep, [{"kind": "btree", "noempty": True}], 150 if thorough else 60, 3, 1200 if thorough else 260,
                         SEED * 31 + 5, crash=2, label="c14bt", small=True, dumps=True, steady=3)
+    # keys that share every index-visible hash bit, on a page that overflows (index growth, several generations):
+    # every live value must stay reachable through the index
+    for j in range(3 if thorough else 1):
+        record_and_validate(rep, [{"kind": "hash", "uniform": True, "collide": True, "deep": j % 2 == 1}], 80, 3,
+                            1500 if thorough else 600, SEED * 37 + j, crash=2, label="c14col%d" % j, small=True, dumps=True)
     rep.extra["dump_events_checked"] = "counted by TLC as matched Dump events in the traces"
     # tree columns (MultiTree.tla): node reference counts = number of referencing parents, every slot free / live
     # node / stored root, also after a crash.  The model accounts for slots claimed at commit time by transactions
